@@ -392,6 +392,16 @@ def fixed_shapes():
         s.types.append(TypeDef(kw, ("simple", "REAL")))
         e = Entity("e1", []); e.attrs = [Attr("a1", "e", kw)]; s.entities.append(e)
         out.append(s)
+    # an escaped keyword next to the declared identifier `keyword_`: two entities / two defined types, one class each
+    s = Schema("kwus_e")
+    for n, sup in [("class", []), ("class_", ["class"]), ("class__", [])]:
+        e = Entity(n, sup); e.attrs = [Attr("a_" + str(len(s.entities)), "e", "INTEGER")]; s.entities.append(e)
+    out.append(s)
+    s = Schema("kwus_t")
+    s.types.append(TypeDef("pass", ("simple", "INTEGER")))
+    s.types.append(TypeDef("pass_", ("simple", "REAL")))
+    e = Entity("e1", []); e.attrs = [Attr("a1", "e", "pass"), Attr("a2", "e", "pass_")]; s.entities.append(e)
+    out.append(s)
     return out
 
 
